@@ -107,7 +107,7 @@ FULLY_SPECIFIED |= {
     'saturating_sub', 'wrapping_add', 'wrapping_sub', 'len', 'push', 'pop', 'insert', 'remove', 'is_empty', 'clear', 'as_slice',
     'extend_from_slice', 'clone', 'with_capacity', 'new', 'swap', 'split_at', 'get', 'contains_key', 'to_string', 'to_owned',
     'as_str', 'copy_from_slice', 'from', 'Some', 'Ok', 'Err', 'None', 'cloned', 'first', 'last', 'as_ref', 'truncate',
-    'or_else', 'or', 'to_canonical', 'to_ipv4_mapped', 'trim', 'trim_start', 'trim_end',   # complete contracts in prelude/20_fns.rs
+    'or_else', 'or', 'to_canonical', 'to_ipv4_mapped', 'trim', 'trim_start', 'trim_end', 'vp_hex_u8',   # complete contracts in prelude/20_fns.rs
 }
 
 
